@@ -112,7 +112,9 @@ static int op_threads(int argc, tok_t *a, out_t *o) {
    bit 2 factorial / binomial / fibonacci (tables + sieve + prime-swing), bit 3 primality (trial division,
    Miller-Rabin with the function's own generator, private states), bit 4 one random state per thread
    (MT, LC, copies, reseeding), bit 5 READS of the default mpf precision (set by the main thread BEFORE the
-   threads exist, restored after they are joined: the documented discipline).
+   threads exist, restored after they are joined: the documented discipline), bit 6 the documented exception: thread 0
+   — and only thread 0 — also uses the obsolete random functions on the library's global generator (mpn_random,
+   mpn_random2, mpf_random2) and clears it before it ends; the other threads never touch those cells.
    Per-thread memory accounting: an allocator with thread-local counters is installed (again before thread
    creation); every thread must free exactly what it allocated, and its allocation count and byte total must
    equal those of the sequential run (a shared cache filled by whichever thread comes first breaks this). */
@@ -135,7 +137,8 @@ static void *workerx(void *arg) {
   mpq_init(q); mpf_init2(f, 300);
   gmp_randinit_mt(mt); gmp_randseed_ui(mt, j->seed ^ (0x55 * (j->id + 1)));
   gmp_randinit_lc_2exp_size(lc, 100); gmp_randseed_ui(lc, j->seed + 3 * j->id);
-  int kinds[6], nk = 0; for (int b = 0; b < 6; b++) if (j->profile >> b & 1) kinds[nk++] = b;
+  int kinds[7], nk = 0; for (int b = 0; b < 6; b++) if (j->profile >> b & 1) kinds[nk++] = b;
+  if ((j->profile >> 6 & 1) && j->id == 0) kinds[nk++] = 6;
   if (!nk) kinds[nk++] = 0;
   for (long k = 0; k < j->nops; k++) {
     unsigned long r = xs(&s); int d = r & 3, sub = (r >> 8) % 8; unsigned long v = r >> 40;
@@ -214,8 +217,17 @@ static void *workerx(void *arg) {
       }
       h = fold_f(h * 31 + g->_mp_prec + mpf_get_prec(g) + mpf_get_default_prec(), g);
       mpf_sqrt_ui(g, 2 + v % 100); h = fold_f(h, g); mpf_clear(g); } break;
+    case 6: {                     /* the global generator, from this thread only */
+      mp_limb_t t[40]; long n = 1 + v % 40;
+      switch (sub % 3) {
+      case 0: mpn_random(t, n); for (long i = 0; i < n; i++) h = (h ^ t[i]) * 1099511628211UL; break;
+      case 1: mpn_random2(t, n); for (long i = 0; i < n; i++) h = (h ^ t[i]) * 1099511628211UL; break;
+      case 2: mpf_random2(f, 1 + v % 4, 3); h = fold_f(h, f); break;
+      }
+      } break;
     }
   }
+  if ((j->profile >> 6 & 1) && j->id == 0) RANDS_CLEAR();
   for (int i = 0; i < 4; i++) mpz_clear(z[i]);
   mpq_clear(q); mpf_clear(f); gmp_randclear(mt); gmp_randclear(lc);
   j->digest = h; j->na = x_na; j->ba = x_ba; j->live_blocks = (long) (x_na - x_nf); j->live_bytes = (long) (x_ba - x_bf);
@@ -224,7 +236,7 @@ static void *workerx(void *arg) {
 static int op_threadsx(int argc, tok_t *a, out_t *o) {
   if (argc != 4) return -1;
   int n = tok_long(&a[0]); unsigned long seed = tok_ulong(&a[1]); long nops = tok_long(&a[2]); int profile = tok_long(&a[3]);
-  if (n < 1 || n > 16 || nops < 0 || nops > 100000 || profile < 0 || profile > 63) return -1;
+  if (n < 1 || n > 16 || nops < 0 || nops > 100000 || profile < 0 || profile > 127) return -1;
   gmp_randstate_t rs; gmp_randinit_default(rs); gmp_randseed_ui(rs, seed);
   static const long pbits[NPR] = {24, 40, 64, 130, 400, 90};
   for (int i = 0; i < NPR; i++) { mpz_init(srcx_p[i]); mpz_urandomb(srcx_p[i], rs, pbits[i]); mpz_setbit(srcx_p[i], pbits[i] - 1); mpz_nextprime(srcx_p[i], srcx_p[i]); }
